@@ -53,6 +53,13 @@ SENT = 0x5A  # sentinel byte for guard zones and gaps
 GUARD = 32   # guard bytes on each side of every buffer handed to the library
 
 
+def wide(n):
+    """non-negative integer -> 4 limbs base 2^20, least significant first (module Wide of the specification)"""
+    if n is None or n < 0:
+        return [0, 0, 0, 0]
+    return [(n >> (20 * k)) & 0xFFFFF for k in range(4)]
+
+
 def proj(v):
     """project a number to something TLC can hold (32-bit ints) without losing identity"""
     if v is None:
@@ -849,6 +856,9 @@ class Driver:
             else:
                 out["buf"] = [proj(x) for x in buf.get(pos)]
                 out["guard"] = buf.untouched_outside(pos)
+                if a.get("rawhex"):     # the elements as they would lie in the file (big-endian), for bit-exact comparison
+                    out["hex"] = "".join(bytes(ct(x))[::-1].hex() for x in buf.get(pos))
+                    out["hexb"] = [out["hex"][2 * q:2 * q + 2] for q in range(len(out["hex"]) // 2)]
             if fr is not None:
                 L.mpi.MPI_Type_free(byref(fr))
         else:
@@ -1093,6 +1103,53 @@ class Driver:
         e, o = self.op_inq_layout(a)
         o["rc"] = self.L.errname(e)
         return o
+
+    def obs_wlayout(self, a):
+        """variable offsets and record size as reported by the library, as wide numbers (4 limbs, base 2^20)"""
+        e, o = self.op_inq_layout(a)
+        return {"rc": self.L.errname(e), "offs": [wide(x) for x in o["offs"]], "recsize": wide(o["recsize"]), "hsize": o["hsize"]}
+
+    def obs_nzruns(self, a):
+        """every maximal run of non-zero bytes in the data part of the (sparse) file, found through SEEK_DATA (rank 0)"""
+        if self.rank != 0:
+            return None
+        p = self.ctx.paths.get(str(a.get("f", 0)))
+        if p is None or not os.path.exists(p):
+            return {"error": "absent"}
+        with open(p, "rb") as fh:
+            try:
+                h = cdfdecode.decode_header(fh.read(1 << 20))
+            except cdfdecode.FormatError as ex:
+                return {"error": str(ex)}
+        skip = min([v["begin"] for v in h["vars"]] or [0])
+        runs = []
+        fd = os.open(p, os.O_RDONLY)
+        try:
+            size = os.fstat(fd).st_size
+            pos = skip
+            while pos < size and len(runs) < 200:
+                try:
+                    d = os.lseek(fd, pos, os.SEEK_DATA)
+                except OSError:
+                    break
+                hole = os.lseek(fd, d, os.SEEK_HOLE)
+                d = max(d, skip)
+                os.lseek(fd, d, os.SEEK_SET)
+                blk = os.read(fd, min(hole - d, 1 << 22))
+                i = 0
+                while i < len(blk):
+                    if blk[i] == 0:
+                        i += 1
+                        continue
+                    j = i
+                    while j < len(blk) and blk[j] != 0:
+                        j += 1
+                    runs.append({"off": wide(d + i), "hexb": ["%02x" % x for x in blk[i:j]]})
+                    i = j
+                pos = d + max(len(blk), 1)
+        finally:
+            os.close(fd)
+        return {"runs": runs, "size": wide(size)}
 
     def obs_filesize(self, a):
         if self.rank != 0:
